@@ -1594,7 +1594,6 @@ func genUpsertMerge(prop string, seed uint64, count int) []genOut {
 	return out
 }
 
-
 // adaptiveAssoc: bracketings of merges in the adaptive chunk mode whose deletions take a term's
 // cardinality across a multiple of 1024 at one step but not at another: flat merge with the
 // deletions, deletions applied in an inner single-segment merge, deletions translated through an
